@@ -25,6 +25,8 @@ def gen(rng, tier):
             line = open_line(form, I)
             cs.append(Case(line, cls="open/" + form.split(" ")[0], expect=(lambda a, e="ok " + hx(I.msg): a == e),
                            meta={"why": "opening an honest ciphertext did not return the message"}))
+        if n < 40 or idx % 8 == 0:
+            cs.extend(oversized_authentic(I, (1, 64) if tier == "quick" else (1, 7, 64, 200)))
         # dryoc seals with the OS generator, libsodium opens it, and vice versa (classic + object API)
         if n < 64 or idx % 8 == 0:
             cs.append(Case("box_seal_rt %s %s %s" % (hx(I.rpk), hx(I.rsk), hx(I.msg)), cls="seal-roundtrip", expect="ok"))
@@ -46,6 +48,10 @@ def gen(rng, tier):
             else:
                 cs.append(Case(open_line(form, I), cls="corner-open/" + f, expect=(lambda a, e="ok " + hx(I.msg): a == e),
                                meta={"why": "opening an honest ciphertext (Poly1305 corner) did not return the message"}))
+    if tier == "thorough":
+        # inputs past 4 GiB (an aliased buffer, harness/src/ops_huge.rs): every length computation of the authenticator must hold beyond 32 bits
+        for L in (2 ** 32 + 16 + 5,):
+            cs.append(Case("poly1305_huge %d" % L, cls="poly1305/over-4GiB", meta={"no_spec": True, "alloc_bound": 1 << 20, "why": "one-time authenticator of a %d-byte input (the authenticator of a box of that size)" % L}))
     return cs
 
 
